@@ -109,6 +109,10 @@ func vc05WriteRead(teletext bool) {
 		if full {
 			nl = 3
 		}
+		// a cue without text still takes its TTI block (block and subtitle numbers, counts, timecodes)
+		if !teletext && c == n-1 && k%6 == 2 {
+			nl = 0
+		}
 		it := &Item{StartAt: st, EndAt: en, InlineStyle: &StyleAttributes{STLJustification: &m.just, STLPosition: &STLPosition{VerticalPosition: vp, MaxRows: maxRows, Rows: nl}}}
 		for l := 0; l < nl; l++ {
 			runs := corpus[(k+2*c+3*l)%len(corpus)]
